@@ -6,6 +6,7 @@ CONSTANTS
   FixLeave = TRUE
   FixWrap = FALSE
   FixDead = FALSE
+  FixAdopt = FALSE
   MaxTry = 2
   TrackCov = FALSE
   Goal = "none"
